@@ -565,6 +565,16 @@ def _r3_cycles(ctx):
     # <ConfigurationError>`  that dominates the recursive call, with
     # self.F.append(X) before and a pop/remove in a finally after.
     guard = None
+    unheld = None
+    # functions from which the parser is reached again
+    back = {parse.qualname}
+    grew = True
+    while grew:
+        grew = False
+        for q, ss in succ.items():
+            if q not in back and any(x in back for x in ss):
+                back.add(q)
+                grew = True
     for q in cyc:
         fi = m.functions[q]
         nxt = cyc[(cyc.index(q) + 1) % len(cyc)] if q != cyc[-1] else None
@@ -594,6 +604,13 @@ def _r3_cycles(ctx):
                     and x.lineno > n.lineno
                     for x in walk_shallow(fi.node))
                 popped = False
+                # calls of this function that lead back to the parser
+                back_calls = [
+                    x for x in walk_shallow(fi.node)
+                    if isinstance(x, ast.Call) and any(
+                        c.kind == "repo" and c.fn.qualname in back
+                        for c in P.resolve_call(fi, x))]
+                covered = set()
                 for t in walk_shallow(fi.node):
                     if isinstance(t, ast.Try) and t.finalbody \
                             and t.lineno > n.lineno:
@@ -604,13 +621,31 @@ def _r3_cycles(ctx):
                                     and x.func.attr in ("pop", "remove") \
                                     and src(x.func.value) == ctext:
                                 popped = True
-                if appended and popped:
+                                # the entry stays in the chain for exactly
+                                # what this try's body does
+                                inside = {id(y) for y in ast.walk(
+                                    ast.Module(body=t.body, type_ignores=[]))}
+                                covered |= {id(c) for c in back_calls
+                                            if id(c) in inside}
+                # every call that continues the cycle happens while the
+                # entry is in the chain
+                held = bool(back_calls) and all(id(c) in covered
+                                                for c in back_calls)
+                if appended and popped and held:
                     guard = (fi, n, ctext)
+                elif appended and popped:
+                    unheld = (fi, [src(c) for c in back_calls
+                                   if id(c) not in covered])
     run.check(guard is not None, "C07.R3",
               " -> ".join(c.split(".")[-1] for c in cyc), "include recursion",
               "cycle is guarded in %s: membership test on %s raising a "
-              "configuration error, append before and pop in a finally"
+              "configuration error, append before and pop in a finally whose "
+              "try body contains every call that leads back to the parser"
               % ((guard[0].qualname, guard[2]) if guard else ("", "")),
+              ("the guard of %s does not hold while %s run(s): the entry is "
+               "removed from the chain before the nested parse, so only "
+               "cycles through the top resource are refused"
+               % (unheld[0].qualname, unheld[1])) if unheld else
               "the cycle %s is driven by configuration text (%%include) and "
               "has no guard: a file that includes itself recurses until "
               "RecursionError" % " -> ".join(cyc),
